@@ -191,6 +191,20 @@ CHECKS['C19'] = dict(
          'scenarios) and 2 (seeded scenarios) in the quick tier, capacity 1..4 in the thorough tier; 4+ concurrent operations are outside.',
     design='§3 C19, §2.3', engine='ir2c+cbmc',
     technique='IR -> flat-memory C translation + CBMC bounded model checking of all interleavings (SAT); counterexamples confirmed on the real template by schedule exploration')
+CHECKS['C07'] = dict(
+    text='PARTIAL (the accuracy-for-every-matrix clause is outside the technique). Decided: (1) pade3/5/7/9/13 executed symbolically on a '
+         'symbolic complex number with the even powers formed as in the library: U+V = p_m(A) and V-U = p_m(-A) with the [m/m] Pade '
+         'coefficients of exp, as exact polynomial identities (any wrong or unused table entry, wrong power or sign is a counterexample); '
+         '(2) the argument validation of the norm estimator characterised by z3 over symbolic (t, itmax) and a symbolic matrix, the IR '
+         'call sites checked to pass (2,5), hence whether matrix_exponential can throw for n=2..6; (3) dispatch with all 2n^2 entries '
+         'symbolic: the diagonal shortcut is taken iff the matrix is diagonal and returns diag(exp a_ii), every other input reaches the '
+         'estimator; (4) UTransform(V,scale): the matrix handed to the exponential is scale*S2M(V) and the result is E^dagger M E for the '
+         '(summarised, arbitrary) E it returns, also after a previous call in another dimension (thread-local scratch).',
+    note='OUTSIDE: "equals exp(A) to a small multiple of machine precision times the conditioning, for every matrix, norm band and history": '
+         'floating-point backward-error analysis through GSL\'s compiled LU, the randomised norm estimator and pow/log; also the theta_m '
+         'thresholds and the scaling/squaring stage (s, ell(B,13)) are not decided. The native replay compares with scipy.linalg.expm on '
+         'well-conditioned matrices in the norm band of the order concerned. Trusted: textbook Pade coefficients (2m-k)!/(k!(m-k)!).',
+    design='§3 C07, §4')
 NA_REASON = 'check not built yet (framework under construction; see DESIGN.md)'
 NA = {}
 
